@@ -23,9 +23,10 @@
 (*                                                                         *)
 (* Transparency classes of a pixel with alpha a under threshold t=num/den  *)
 (* (documented: "alpha ratio above which pixels are taken as opaque"):     *)
-(*   a/255 above t -> opaque, below -> transparent; a pixel within half an *)
-(*   8-bit level of the threshold (2*|a*den - 255*num| <= den, which        *)
-(*   contains "exactly at the threshold") is accepted either way.          *)
+(*   a/255 above t -> opaque, below -> transparent.  A pixel exactly at    *)
+(*   the threshold, or less than half an 8-bit level below it              *)
+(*   (0 <= 255*num - a*den <= den/2: the threshold quantised to the        *)
+(*   nearest 8-bit alpha level), is accepted either way.                   *)
 (***************************************************************************)
 EXTENDS BlockSem, Json, IOUtils
 
@@ -38,13 +39,12 @@ Tr == Traces[tid]
 Toks == Tr.toks
 N == Len(Toks)
 
-Abs(x) == IF x < 0 THEN -x ELSE x
-
 Class(a, thr) ==
   IF thr = <<>> THEN "opaque"
-  ELSE LET d == a * thr[2] - 255 * thr[1] IN
-       IF 2 * Abs(d) <= thr[2] THEN "either"
-       ELSE IF d > 0 THEN "opaque" ELSE "transparent"
+  ELSE LET d == 255 * thr[1] - a * thr[2] IN      \* (t - a/255) * 255 * den
+       IF d < 0 THEN "opaque"
+       ELSE IF 2 * d <= thr[2] THEN "either"
+       ELSE "transparent"
 
 \* "ok" or the name of the clause a half-cell fails
 HalfClause(tr, cell, half, rgb, a) ==
